@@ -301,6 +301,70 @@ fn pool() -> Vec<PoolRow> {
     v
 }
 
+/// (4c) a line that is not valid UTF-8 (a Latin-1 description) as header and as a data row: it is
+/// delivered as an error item and must not disturb order, header skipping or line numbers
+pub fn check_latin1(st: &mut Stats) {
+        let scratch = Scratch::new();
+        let path = scratch.dir.join("latin1.csv");
+        let good1: &[u8] = b"0041,PVALID,LATIN CAPITAL LETTER A";
+        let good2: &[u8] = b"200C,CONTEXTJ,";
+        let bad: &[u8] = b"110000,PVALID,desc";
+        let latin1_row: &[u8] = b"00F3,PVALID,LATIN SMALL LETTER O WITH ACUTE \xf3";
+        let latin1_header: &[u8] = b"Codepoint,Property,Descripci\xf3n";
+        let plain_header: &[u8] = b"Codepoint,Property,Description";
+        // (lines, expectation per item): 'E' = some error, 'B' = error with this 1-based line number, digit = good row index
+        let layouts: Vec<(Vec<&[u8]>, Vec<(char, u64)>)> = vec![
+            (vec![latin1_header, good1, good2, bad], vec![('E', 1), ('1', 2), ('2', 3), ('B', 4)]),
+            (vec![plain_header, good1, latin1_row, good2, bad], vec![('1', 2), ('E', 3), ('2', 4), ('B', 5)]),
+            (vec![plain_header, latin1_row, bad, good1], vec![('E', 2), ('B', 3), ('1', 4)]),
+        ];
+        for (lines, expect) in layouts {
+            for eol in [&b"\n"[..], &b"\r\n"[..]] {
+                let mut bytes: Vec<u8> = Vec::new();
+                for l in &lines {
+                    bytes.extend_from_slice(l);
+                    bytes.extend_from_slice(eol);
+                }
+                let _ = std::fs::write(&path, &bytes);
+                st.states += 1;
+                st.transitions += 1;
+                st.evaluations += 1;
+                st.traces += 1;
+                st.nontrivial += 1;
+                let items = guard(|| CsvLineParser::<std::fs::File, PrecisDerivedProperty>::from_path(&path).map(|p| p.map(|r| r.map(|v| render(&v)).map_err(|e| e.line())).collect::<Vec<_>>()));
+                let mk = || Case::new("latin1").x(json!({"bytes": bytes, "expect": expect.iter().map(|(c, n)| format!("{}{}", c, n)).collect::<Vec<_>>()}));
+                let items = match items {
+                    Ok(Ok(v)) => v,
+                    other => {
+                        st.violation("latin1", mk, "an item per line".into(), format!("{:?}", other.map(|r| r.map(|v| v.len()).map_err(|e| e.mesg().to_string()))));
+                        continue;
+                    }
+                };
+                let mut ok = items.len() == expect.len();
+                if ok {
+                    for (it, (kind, n)) in items.iter().zip(expect.iter()) {
+                        ok &= match (kind, it) {
+                            ('E', Err(_)) => true,
+                            ('B', Err(l)) => *l == Some(*n),
+                            ('1', Ok(v)) => v.0 == 0x41,
+                            ('2', Ok(v)) => v.0 == 0x200C,
+                            _ => false,
+                        };
+                    }
+                }
+                if !ok {
+                    st.violation(
+                        "latin1",
+                        mk,
+                        format!("items {:?} (E = an error for the undecodable line, B<n> = error carrying line n, 1/2 = the well-formed rows, in file order)", expect.iter().map(|(c, n)| format!("{}{}", c, n)).collect::<Vec<_>>()),
+                        format!("{:?}", items.iter().map(|i| match i { Ok(v) => format!("Ok({:04X})", v.0), Err(l) => format!("Err(line {:?})", l) }).collect::<Vec<_>>()),
+                    );
+                }
+            }
+        }
+        let _ = std::fs::remove_file(&path);
+}
+
 pub fn run(_env: &Env, run: &Run) -> (Stats, Coverage) {
     let mut st = Stats::default();
     let props = prop_fields();
@@ -451,6 +515,17 @@ pub fn run(_env: &Env, run: &Run) -> (Stats, Coverage) {
         }
         let _ = std::fs::remove_file(&path);
     }
+    // (4c) undecodable lines
+    check_latin1(&mut st);
+    // (5b) the repository's own copy of the registry (the oracle of its derived-property test):
+    // noted, not judged, when it no longer is the pinned file
+    {
+        let repo_csv = crate::ucd::repo_dir().join("precis-core/resources/csv/precis-tables-6.3.0.csv");
+        let pinned = verif_dir().join("data/csv/precis-tables-6.3.0.csv");
+        if std::fs::read(&repo_csv).ok() != std::fs::read(&pinned).ok() {
+            st.note("the repository's precis-tables-6.3.0.csv differs from the pinned IANA file: its own derived-property test no longer checks what it appears to check (fixture problem, not a parser verdict)".into());
+        }
+    }
     // (5) the real registry file, row by row, against the harness's own reader
     {
         let path = verif_dir().join("data/csv/precis-tables-6.3.0.csv");
@@ -497,7 +572,7 @@ pub fn run(_env: &Env, run: &Run) -> (Stats, Coverage) {
     st.sample(json!({"row": "0041,PVALID or,desc", "expected": "Err"}));
     st.sample(json!({"file": "header, good, bad(above U+10FFFF), good (CRLF, no final newline)", "expected": "Ok, Err with line()=3, Ok - in file order"}));
     let cov = Coverage {
-        rule: format!("grammar enumeration: (1) every code point 0..=0x10FFFF as a single-code-point row in 4/5/6-digit upper-case hex, property field and description rotating over all {} property fields (7 names + 49 ordered pairs x 3 spacings) and {} descriptions (empty, commas, ' or ', trailing CR); (2) every range start<=end over {} boundary values x every property field x every description; (3) {} hand-listed malformed rows + systematic deletion/corruption of each field of boundary rows; (4) every file of <= {} rows over a pool of {} rows (6 well-formed, rest malformed) x LF/CRLF x with/without final newline through CsvLineParser::from_path: items in file order, error line() = 1-based line; (4b) descriptions of 255..70000 bytes as single rows and inside 4-row files; (5) the real IANA file row by row; expected values are known by construction; non-trivial = range rows, malformed rows, multi-row files", props.len(), DESCS.len(), b.len(), malformed_rows().len(), maxrows, pool.len()),
+        rule: format!("grammar enumeration: (1) every code point 0..=0x10FFFF as a single-code-point row in 4/5/6-digit upper-case hex, property field and description rotating over all {} property fields (7 names + 49 ordered pairs x 3 spacings) and {} descriptions (empty, commas, ' or ', trailing CR); (2) every range start<=end over {} boundary values x every property field x every description; (3) {} hand-listed malformed rows + systematic deletion/corruption of each field of boundary rows; (4) every file of <= {} rows over a pool of {} rows (6 well-formed, rest malformed) x LF/CRLF x with/without final newline through CsvLineParser::from_path: items in file order, error line() = 1-based line; (4b) descriptions of 255..70000 bytes as single rows and inside 4-row files; (4c) files whose header or one data row is not valid UTF-8; (5) the real IANA file row by row; expected values are known by construction; non-trivial = range rows, malformed rows, multi-row files", props.len(), DESCS.len(), b.len(), malformed_rows().len(), maxrows, pool.len()),
         alphabet: json!({"names": NAMES, "descriptions": DESCS, "boundary": b.iter().map(|v| format!("{:04X}", v)).collect::<Vec<_>>()}),
         bound_completed: format!("1,114,112 code points x up to 3 spellings; {} ranges x {} x {}; {} files x 4 layouts", ranges.len(), props.len(), DESCS.len(), nfiles),
         exhaustive: false,
@@ -522,6 +597,12 @@ pub fn replay(_env: &Env, case: &Case) -> Vec<Violation> {
             check_row_ok(&case.str_at(0), &spec, &mut st);
         }
         "row_bad" => check_row_bad(&case.str_at(0), "replayed", &mut st),
+        "latin1" => {
+            // re-run the whole (tiny) family and keep the violation with the same bytes
+            let mut all = Stats::default();
+            check_latin1(&mut all);
+            st.violations = all.violations.into_iter().filter(|v| v.case.extra["bytes"] == case.extra["bytes"]).collect();
+        }
         "file" => {
             let scratch = Scratch::new();
             let path = scratch.dir.join("replay.csv");
